@@ -41,7 +41,7 @@ def check_strict(m: t.Dict[str, t.Any], ctx: Ctx) -> t.List[Violation]:
 
 class Messages(Part):
     name = "messages"
-    examples = {QUICK: 1200, THOROUGH: 25000}
+    examples = {QUICK: 1500, THOROUGH: 25000}
 
     def strategy(self, tier: str) -> t.Any:
         return st.one_of(gens.message(), gens.message(), gens.message(big=True))
